@@ -206,7 +206,7 @@ var siteFuncRe = regexp.MustCompile(`:([A-Za-z0-9_]+):sync:`)
 
 func checkC32(r *Result) []Violation {
 	var out []Violation
-	if d := r.Ex.Deadlock; d != nil {
+	if d := r.Ex.Deadlock; d != nil && !d.OnlyWG {
 		var fns []string
 		seen := map[string]bool{}
 		for _, t := range d.Tasks {
@@ -522,7 +522,8 @@ func checkC07(r *Result) []Violation {
 			}
 			if !found && !(bc >= 0 && bc < q) {
 				out = append(out, viol("C07", "no-response", fmt.Sprintf("conn %d (v%d): %s got no %s and the connection was not closed (by quiescence seq %d)", c.Idx, c.Ver, p, refcodec.TypeNames[want], q), s.Seq,
-					"request", refcodec.TypeNames[p.Type], "qos", fmt.Sprint(p.Qos), "ver", verClass(c.Ver), "topic_class", topicClass(p), "rc", fmt.Sprintf("0x%02x", p.ReasonCode)))
+					"request", refcodec.TypeNames[p.Type], "qos", fmt.Sprint(p.Qos), "ver", verClass(c.Ver), "topic_class", topicClass(p), "rc", fmt.Sprintf("0x%02x", p.ReasonCode),
+					"over_max_qos", fmt.Sprint(p.Type == refcodec.PUBLISH && p.Qos > r.Plan.Cfg.MaxQos)))
 			}
 		}
 	}
